@@ -345,7 +345,7 @@ Proof.
   - destruct (cur_instr N s p0) as [[[qr d] i]|] eqn:Ec; [|discriminate].
     apply cur_instr_inv in Ec as (Hq & Hd & Hr & Hi).
     pose proof (exec_shape _ _ _ _ _ _ _ _ Hq Hr H) as Hsh.
-    destruct Hsh as [pr' E1 _ _ (M & _ & Mc) | pr' _ M Mc E1 _ _ | q qp c pr' Hn Hqq Hqs _ E1 _ _ (M & _ & Mc) | q g k qp pr' _ _ _ E1 _ _ (M & _ & Mc)];
+    destruct Hsh as [pr' E1 _ _ (M & _ & Mc) | pr' _ M Mc E1 _ _ | q qp c pr' Hn Hqq Hqs _ _ E1 _ _ (M & _ & Mc) | q g k qp pr' _ _ _ E1 _ _ (M & _ & Mc)];
       rewrite E1; try (eapply KEEP; eauto; congruence).
     assert (p <> q) by (intros ->; rewrite Hp in Hqq; inv Hqq; contradiction).
     eapply KEEP; eauto; try congruence; rewrite nth_error_upd_other; auto.
@@ -440,14 +440,20 @@ Definition split_cex_labels : list label :=
   [LStep 3 false; LStep 3 false; LStep 1 false; LRdv 1 3; LStep 3 false; LAbandon 3; LClose 4;
    LStep 4 false; LStep 4 false; LStep 1 false].
 
-Definition split_cex : option state :=
-  fold_left (fun o l => match o with Some s => step (split_net 2) s l | None => None end) split_cex_labels
-            (Some (split_init 2 [1; 2]%Z)).
+Lemma reach_run_labels N ls s0 s : run_labels N ls s0 = Some s -> reach N s0 s.
+Proof.
+  intros H. assert (G : forall s1, reach N s0 s1 -> run_labels N ls s1 = Some s -> reach N s0 s).
+  { clear H. induction ls as [|l ls IH]; intros s1 R H; simpl in H.
+    - inv H. exact R.
+    - destruct (step N s1 l) eqn:E; [|discriminate]. eapply IH; [eapply reach_step; eauto|exact H]. }
+  eapply G; [apply reach_init|exact H].
+Qed.
 
 Definition split_cex_state : state :=
-  Eval vm_compute in match split_cex with Some s => s | None => split_init 2 [] end.
+  Eval vm_compute in match run_labels (split_net 2) split_cex_labels (split_init 2 [1; 2]%Z) with
+                     | Some s => s | None => split_init 2 [] end.
 
-Lemma split_cex_eq : split_cex = Some split_cex_state.
+Lemma split_cex_eq : run_labels (split_net 2) split_cex_labels (split_init 2 [1; 2]%Z) = Some split_cex_state.
 Proof. vm_compute. reflexivity. Qed.
 
 Lemma split_cex_quiescent : quiescentb (split_net 2) split_cex_state = true.
@@ -460,7 +466,7 @@ Theorem split_starter_abandoned_refuted :
             ~ all_done s.
 Proof.
   exists split_cex_state.
-  split; [apply reach_apply_all with (ls := split_cex_labels); exact split_cex_eq|].
+  split; [exact (reach_run_labels _ _ _ _ split_cex_eq)|].
   split; [apply quiescentb_sound; exact split_cex_quiescent|].
   split; [intros [|[|j]] pr Hj Hp; [| |lia]; unfold split_cex_state in Hp; cbn in Hp; inv Hp; discriminate|].
   split; [unfold split_cex_state; cbn; auto|]. split; [unfold split_cex_state; cbn; intuition discriminate|].
@@ -500,9 +506,9 @@ Proof. intros R. rewrite <- (tokens_init_of K srcs). exact (reach_conserves _ _ 
 Example map_net_runs :
   let s := run (map_net 3) 1000 0 false None (map_init 3 [1; 2; 3; 4; 5]%Z) in
   leaks (map_net 3) s = 0 /\ stuck_users (map_net 3) s = 0 /\ length (s_deliv s) = 5 /\ s_drop s = [].
-Proof. vm_compute. auto. Qed.
+Proof. vm_compute. repeat split; auto. Qed.
 
 Example map_net_close_quiesces :
   let s := scenario (map_net 3) (map_init 3 [1; 2; 3; 4; 5]%Z) 1000 0 false (Some 2) [LClose 1] in
   quiescentb (map_net 3) s = true /\ leaks (map_net 3) s = 0 /\ In 1 (s_canc s).
-Proof. vm_compute. auto. Qed.
+Proof. vm_compute. repeat split; auto. Qed.
